@@ -90,12 +90,12 @@ func (h *httpHandler) ServeHTTP(w http.ResponseWriter, r *http.Request) {
 		return
 	}
 
-	var wg sync.WaitGroup
 	e := h.executor
 
-	wg.Add(1)
+	done := make(chan struct{})
+	var once sync.Once
 	runner := reactive.NewRerunner(r.Context(), func(ctx context.Context) (interface{}, error) {
-		defer wg.Done()
+		defer once.Do(func() { close(done) })
 
 		ctx = batch.WithBatching(ctx)
 
@@ -128,6 +128,12 @@ func (h *httpHandler) ServeHTTP(w http.ResponseWriter, r *http.Request) {
 		return nil, nil
 	}, DefaultMinRerunInterval, false)
 
-	wg.Wait()
+	// The rerunner never runs the computation if the request's context is
+	// canceled first, so also stop waiting in that case. Stop waits for a
+	// computation that is in progress.
+	select {
+	case <-done:
+	case <-r.Context().Done():
+	}
 	runner.Stop()
 }
